@@ -453,8 +453,13 @@ func (e *Engine) execAssign(st *State, s *ast.AssignStmt) []*State {
 		var out []*State
 		for _, l := range e.eval(st, s.Lhs[0]) {
 			for _, r := range e.eval(l.st, s.Rhs[0]) {
-				nv := e.newVal(KArith, l.v.Type, s.Pos())
-				nv.Src, nv.Src2, nv.Op = l.v, r.v, op
+				var nv *Val
+				if ca, cb := intConstOf(l.v), intConstOf(r.v); ca != nil && cb != nil && (op == token.OR || op == token.AND || op == token.AND_NOT || op == token.XOR) && l.v.Type != nil {
+					nv = e.constVal(constant.BinaryOp(ca, op, cb), l.v.Type) // flag sets: of |= flag
+				} else {
+					nv = e.newVal(KArith, l.v.Type, s.Pos())
+					nv.Src, nv.Src2, nv.Op = l.v, r.v, op
+				}
 				out = append(out, e.assignTo(r.st, s.Lhs[0], nv, s.Pos())...)
 			}
 		}
